@@ -77,6 +77,16 @@ CHECKS["C18"] = ("pure", "exploration",
     "Only the vectors in go/common/sgx/pcs/testdata are available as accepted starting points; Intel's root key is trusted as in the code under test.",
     "DESIGN.md 4/C18")
 
+CHECKS["C04"] = ("kv", "exploration",
+    "completeness by an independent walker + soundness by proof mutation with 'rejected or never lies' (rapid); adversarial-peer script for remote readers",
+    "Generated trees and queries (SyncGet with siblings on/off, positioned at the root or an inner node, SyncGetPrefixes, SyncIterate; proof versions 0/1): every honest proof must verify and an "
+    "independent walker over the verified subtree must determine each asked key with the true answer. Up to 12-30 mutants per proof (byte/entry/structure level, version/root changes, entries "
+    "spliced from a tree differing in one key) are each either rejected or, for every universe key, yield 'undetermined' or the truth; a foreign tree's proof never verifies. A reader holding only "
+    "the trusted root reads through a scripted adversarial peer (errors, mutated proofs, answers of another tree) and must return the replica's answers or an error, and recover once the peer is honest.",
+    "Trees at most 128 nodes deep (documented maxProofDepth). Remote readers with a node cache smaller than the tree give wrong answers even with an honest peer: recorded as a known finding with a "
+    "deterministic probe; such capacities are excluded from the generator while it is listed as known.",
+    "DESIGN.md 4/C04")
+
 NOT_APPLICABLE = {
 }
 
